@@ -171,6 +171,7 @@ REQUIRED_ACTIONS = {
     "dtor16": ["StepValueScript", "StepMarkO", "OpCloneStored"],
     "dtor05": ["StepValueScript", "StepMarkO", "OpUpgradeStored"],
     "panic": ["StepValuePanic", "StepUnwindSkip", "StepMarkO"],
+    "cpanic": ["StepValuePanic", "StepUnwindSkip", "OpMakeMutX", "OpTryUnwrap", "OpDropDetached"],
     "consume": ["OpTryUnwrap", "OpMakeMutX", "OpGetMut", "OpDecStrong", "OpDropDetached", "StepMarkO"],
     "stale": ["StepMarkO", "OpTake", "OpDropStored"],
     "elide": ["StepMarkO", "OpTake", "OpDropStored"],
@@ -434,6 +435,12 @@ FAMILIES = {
                              sim=[dict(nobj=3, caps="Caps3", num=600, simlen=30)]),
                   thorough=dict(mc=[dict(nobj=2, caps="CapsM"), dict(nobj=3, caps="CapsQ", ops="OpsDtorQ")],
                                 sim=[dict(nobj=3, caps="Caps3", num=6000, simlen=40), dict(nobj=4, caps="Caps3", num=4000, simlen=50)])),
+    "cpanic": dict(ops="OpsCPanic", menu="MenuPanic", profile="cpanic",
+                   invs=["MC_C11"],
+                   quick=dict(mc=[dict(nobj=2, caps="CapsQ")],
+                              sim=[dict(nobj=3, caps="Caps3", num=400, simlen=30)]),
+                   thorough=dict(mc=[dict(nobj=2, caps="CapsM"), dict(nobj=3, caps="CapsQ", ops="OpsCPanicT")],
+                                 sim=[dict(nobj=3, caps="Caps3", num=4000, simlen=40), dict(nobj=4, caps="Caps3", num=3000, simlen=50)])),
     "consume": dict(ops="OpsConsume", menu="MenuPlain", profile="consume",
                     invs=["MC_C12", "MC_C01", "MC_C03"],
                     quick=dict(mc=[dict(nobj=2, caps="CapsCE")],
@@ -505,7 +512,7 @@ PROPS = {
     "C07": dict(fams=["std"], monitor=["C07"], level="translation_validation"),
     "C09": dict(fams=["order"], monitor=["C09"], layouts=dict(quick=4, thorough=16), level="model_checking"),
     "C10": dict(fams=["dtor10"], monitor=["C10"], level="model_checking"),
-    "C11": dict(fams=["panic"], monitor=["C11"], level="model_checking"),
+    "C11": dict(fams=["panic", "cpanic"], monitor=["C11"], level="model_checking"),
     "C12": dict(fams=["consume"], monitor=["C12"], level="model_checking"),
     "C13": dict(fams=["elide", "stale"], monitor=["C13x", "C13"], known_prop="C13", level="model_checking"),
     "C14": dict(fams=["core"], monitor=["C14"], level="model_checking"),
